@@ -1,6 +1,7 @@
 """C09: results are reproducible and independent of object identity / iteration order / process /
 previous runs; no hidden state is left behind."""
 import copy
+import enum
 import gc
 import itertools
 import json
@@ -59,6 +60,16 @@ def run_dump(spec, order, native=False, share_ids=False):
 _baseline = None
 
 
+class _Val(object):
+    """A module global / class attribute looked up again at every snapshot (it may be re-bound, not only mutated)."""
+
+    def __init__(self, owner, name):
+        self.owner, self.name = owner, name
+
+    def get(self):
+        return vars(self.owner).get(self.name)
+
+
 def _walk_defaults():
     out = {}
     for mod in ns.modules:
@@ -75,8 +86,12 @@ def _walk_defaults():
                     f = getattr(f, "__wrapped__", f)
                     if isinstance(f, types.FunctionType):
                         out["%s.%s.%s" % (mod.__name__, name, mn)] = f
-            elif isinstance(obj, (list, dict, set)) and not name.startswith("__"):
-                out["%s.%s" % (mod.__name__, name)] = obj
+                    elif isinstance(mo, (list, dict, set, int, float, str, tuple, frozenset)) and not mn.startswith("__") and not mn.startswith("_vf_") \
+                            and not isinstance(mo, enum.Enum):
+                        # class attributes: state kept there is shared by every instance and every project of the process
+                        out["%s.%s.%s (class attribute)" % (mod.__name__, name, mn)] = _Val(obj, mn)
+            elif isinstance(obj, (list, dict, set, int, float, str, tuple, frozenset)) and not name.startswith("__") and not isinstance(obj, (bool, enum.Enum)):
+                out["%s.%s" % (mod.__name__, name)] = _Val(mod, name)
     return out
 
 
@@ -85,9 +100,24 @@ def _snap_defaults():
     for k, f in _walk_defaults().items():
         if isinstance(f, types.FunctionType):
             snap[k] = repr((f.__defaults__, f.__kwdefaults__))
+        elif isinstance(f, _Val):
+            snap[k] = _stable_repr(f.get())
         else:
             snap[k] = repr(f)
     return snap
+
+
+def _stable_repr(v):
+    """repr without memory addresses (objects are named by class and ID where they have one)."""
+    if isinstance(v, dict):
+        return "{" + ", ".join(sorted("%s: %s" % (_stable_repr(k), _stable_repr(x)) for k, x in v.items())) + "}"
+    if isinstance(v, (set, frozenset)):
+        return "{" + ", ".join(sorted(_stable_repr(x) for x in v)) + "}"
+    if isinstance(v, (list, tuple)):
+        return "[" + ", ".join(_stable_repr(x) for x in v) + "]"
+    if isinstance(v, (int, float, str, bool)) or v is None:
+        return repr(v)
+    return "<%s %s>" % (type(v).__name__, getattr(v, "ID", ""))
 
 
 def sanitizer_check(res):
